@@ -61,6 +61,28 @@ def session_histories(chk, maxcalls):
     return hists
 
 
+def tlaps_proof():
+    import re
+    import shutil
+    import subprocess
+    if not shutil.which("tlapm"):
+        return {"status": "tlapm not found"}
+    work = tempfile.mkdtemp(prefix="tlaps-", dir=tlc.scratch_root())
+    try:
+        for f in (tlc.SPEC / "proofs" / "SessionProof.tla", tlc.SPEC / "SessionCore.tla"):
+            shutil.copy(f, work)
+        p = subprocess.run(["tlapm", "--cleanfp", "SessionProof.tla"], cwd=work, capture_output=True, text=True, timeout=600)
+        out = p.stdout + p.stderr
+        m = re.search(r"All (\d+) obligations? proved", out)
+        return {"status": "proved" if m else "not proved", "obligations": int(m.group(1)) if m else 0,
+                "theorem": "Mutating = FALSE => (SpecU => []C09_HistoryIndependent), SpecU = the specification without the bound on calls",
+                "tail": "" if m else out[-400:]}
+    except Exception as ex:  # noqa: BLE001
+        return {"status": f"not run: {type(ex).__name__}"}
+    finally:
+        shutil.rmtree(work, ignore_errors=True)
+
+
 def replay_histories(chk, hists):
     """All histories back to back in this process: every observable call must show its own name."""
     from .. import gx
@@ -166,6 +188,9 @@ def main(chk: core.Check, replay):
     varied_iters = sorted(set(varied_iters))
     chk.extra["seeds"] = seeds
     chk.extra["models_under_seeds"] = len(mlist)
+    chk.extra["models_with_split_digest"] = sum(1 for mid in by_id if "split" in results[seeds[0]][mid])
+    if not chk.extra["models_with_split_digest"]:
+        raise core.MachineryFailure("no model with several components among the models run under several hash seeds")
     chk.extra["models_with_seed_dependent_iteration_order"] = len(varied_iters)
     chk.replayed += len(mlist) * len(seeds)
     # ---- L3: when the iteration order observed through the hooks varies, the specification decides
@@ -206,7 +231,10 @@ def main(chk: core.Check, replay):
     rep = [h for h in api_hists if repeats_split(h)]
     rest = [h for h in api_hists if not repeats_split(h)]
     nrep = min(len(rep), 15 if quick else 200)
-    api_hists = rnd.sample(rep, nrep) + rnd.sample(rest, min((60 if quick else 800) - nrep, len(rest)))
+    # every history made of three loads: what a loader keeps from the end of one text meets the beginning of the next
+    loads = [h for h in rest if all(c["op"] == "load" for c in h["hist"])]
+    rest = [h for h in rest if h not in loads]
+    api_hists = rnd.sample(rep, nrep) + loads + rnd.sample(rest, min((60 if quick else 800) - nrep, len(rest)))
     if nrep == 0:
         raise core.MachineryFailure("no history repeats Split on one model")
     ncalls, bad = sessionapi.replay(api_hists)
@@ -214,6 +242,11 @@ def main(chk: core.Check, replay):
     chk.extra["api_histories"] = {"histories": len(api_hists), "repeating_split": nrep, "observable_calls": ncalls, "mismatches": len(bad)}
     for b in bad:
         c = b["call"]
+        if c["op"] == "load":
+            chk.violation(f"C09:api-history:load:{c['m']}", b,
+                          f"loading the text of {c['m']} after the calls {[x['op'] + ':' + x['m'] for x in b['history'][:b['position']]]} "
+                          f"gives another model (components / code) than loading it in a fresh process")
+            continue
         if c["op"] == "split":
             chk.violation(f"C09:api-history:split:{c['m']}", b,
                           f"the two halves of {c['m']} (to_ode / minus) generated after the calls "
@@ -223,6 +256,9 @@ def main(chk: core.Check, replay):
         chk.violation(f"C09:api-history:{c['be']}:ru={c['ru']}:sch={c['sch']}", b,
                       f"get_code({c['m']}, backend={c['be']}, remove_unused={c['ru']}, schemes={c['sch']}) after the calls "
                       f"{[x['op'] + ':' + x['m'] for x in b['history'][:b['position']]]} differs from the same call in a fresh process")
+    # ---- unbounded: TLAPS proof of C09_HistoryIndependent for histories of any length (spec/proofs/SessionProof.tla).
+    # Supplementary: TLC above decides the bounded instance; a prover that is missing or slow is recorded, not judged.
+    chk.extra["tlaps_session_proof"] = tlaps_proof()
     # ---- design sensitivity (thorough): the invariant fails when the schedule is free
     if not quick:
         consts = dict(CONSTS, NInter=1, FreeSchedule=True, EmitMod=0)
